@@ -39,3 +39,35 @@ def _classify_c02(name, case, msg):
         if kinds and all(k in ("a", "b") for k in kinds) and len(kinds) != len(case.get("shape", [])) and "NotImplementedError" in msg:
             return "F-dok-partial-index-lists"
     return None
+
+
+def _has_empty_reduced_axis(case):
+    shp = case.get("shape", [])
+    ax = case.get("kwargs", {}).get("axis")
+    nd = len(shp)
+    if ax is None:
+        axes = range(nd)
+    elif isinstance(ax, int):
+        axes = [ax]
+    else:
+        axes = list(ax)
+    try:
+        return any(shp[a % nd] == 0 for a in axes if -nd <= a < nd) if nd else False
+    except ZeroDivisionError:
+        return False
+
+
+def _classify_c03(name, case, msg):
+    fmt = case.get("format", "")
+    shp = case.get("shape", [])
+    if fmt.startswith("gcxs") and shp == []:
+        return "F-gcxs-0d-reduce"
+    if _has_empty_reduced_axis(case):
+        red = case.get("reduction")
+        uf = case.get("ufunc", "")
+        idem = red in ("min", "max", "any", "all", "nanmin", "nanmax") or (red == "ufunc.reduce" and uf not in ("add", "multiply"))
+        if idem and ("zero-size array" in msg or "values differ" in msg):
+            return "F-reduce-empty-axis"
+    if fmt.startswith("gcxs") and 0 in shp and name in ("var", "std") and "AttributeError" in msg:
+        return "F-gcxs-empty-var"
+    return None
